@@ -4,13 +4,20 @@ import (
 	"context"
 	"flag"
 	"fmt"
+	"math/rand"
+	"regexp"
 	"strings"
 	"time"
 
+	"github.com/herohde/morlock/pkg/board"
+	"github.com/herohde/morlock/pkg/board/fen"
 	"github.com/herohde/morlock/pkg/engine"
 	"github.com/herohde/morlock/pkg/engine/console"
 	"github.com/herohde/morlock/pkg/eval"
 	"github.com/herohde/morlock/pkg/search"
+	"verif/harness/internal/corpus"
+	"verif/harness/internal/gen"
+	"verif/harness/internal/out"
 )
 
 func init() {
@@ -24,8 +31,14 @@ func consoleProbe(args []string) {
 	fs := flag.NewFlagSet("console", flag.ExitOnError)
 	probe := fs.String("probe", "short-reset", "short-reset | quit-race | double-halt | stale-best")
 	n := fs.Int("n", 200, "trials")
+	seed := fs.Int64("seed", 1, "seed (transparency)")
+	path := fs.String("out", "", "output ndjson (transparency)")
 	_ = fs.Parse(args)
 	ctx := context.Background()
+	if *probe == "transparency" {
+		consoleTransparency(ctx, *seed, *n, *path)
+		return
+	}
 
 	start := func() (chan<- string, <-chan string) {
 		root := search.AlphaBeta{Eval: search.Leaf{Eval: eval.Material{}}}
@@ -132,4 +145,167 @@ func consoleProbe(args []string) {
 		}
 		fmt.Printf("RESULT stale-best trials=%d stale=%d\n", *n, stale)
 	}
+}
+
+var pvLine = regexp.MustCompile(`^depth=(\d+) score=(\S+) `)
+var subLine = regexp.MustCompile(`^\s*\d+\. ([^\t]+)\t(\S+)\t`)
+
+// consoleTransparency: the same console session (new game, moves, analyses to a fixed depth, take-backs and
+// deeper analyses of the position before) on a driver with a table (hash 1) and on one without (nohash).
+// Recorded per analysis: the final "depth=.. score=.." line, the bestmove and the per-move breakdown.
+func consoleTransparency(ctx context.Context, seed int64, n int, path string) {
+	r := rand.New(rand.NewSource(seed))
+	w := out.Create(path)
+	all := corpus.All()
+	zt := board.NewZobristTable(0)
+	for i := 0; i < n; i++ {
+		f := all[r.Intn(len(all))].Fen
+		pos, turn, _, _, err := fen.Decode(f)
+		if err != nil {
+			continue
+		}
+		parts := strings.Split(f, " ")
+		f = strings.Join(append(parts[:4], "0", "1"), " ")
+		b := board.NewBoard(zt, pos, turn, 0, 1)
+		g := gen.New(r.Int63(), nil, gen.Flags{})
+		// the script: every step is a command and, for analyses, the number of legal moves of the position
+		type step struct {
+			cmd    string
+			nlegal int
+		}
+		var steps []step
+		steps = append(steps, step{"reset " + f, 0})
+		legalNow := func() []board.Move { l, _ := gen.LegalOf(b); return l }
+		depth := 1 + r.Intn(2)
+		ok := true
+		if i%2 == 0 {
+			// a move, an analysis, the move taken back, the position before analysed one ply deeper: the
+			// position after the move is then an interior node at exactly the depth it was analysed to
+			if l := legalNow(); len(l) > 0 {
+				m := g.Pick(l)
+				b.PushMove(m)
+				if l2 := legalNow(); len(l2) > 0 {
+					steps = append(steps, step{moveText(m), 0}, step{fmt.Sprintf("analyze %d", depth), len(l2)}, step{"undo", 0})
+					b.PopMove()
+					depth++
+					steps = append(steps, step{fmt.Sprintf("analyze %d", depth), len(l)})
+				} else {
+					b.PopMove()
+				}
+			}
+		}
+		for k := 0; k < 2+r.Intn(3) && ok && i%2 == 1; k++ {
+			l := legalNow()
+			if len(l) == 0 {
+				ok = false
+				break
+			}
+			switch x := r.Intn(4); {
+			case x == 0 && b.Ply() > 1:
+				b.PopMove()
+				steps = append(steps, step{"undo", 0})
+				depth++
+			case x <= 1:
+				m := g.Pick(l)
+				b.PushMove(m)
+				steps = append(steps, step{moveText(m), 0})
+			}
+			if l = legalNow(); len(l) == 0 {
+				ok = false
+				break
+			}
+			if depth > 3 {
+				depth = 3
+			}
+			steps = append(steps, step{fmt.Sprintf("analyze %d", depth), len(l)})
+		}
+		if !ok {
+			continue
+		}
+		run := func(first string) ([]out.M, string) {
+			root := search.AlphaBeta{Eval: search.Leaf{Eval: eval.Material{}}}
+			e := engine.New(ctx, "console-tt", "verif", root)
+			in := make(chan string)
+			_, lines := console.NewDriver(ctx, e, root, in)
+			next := func() (string, bool) {
+				select {
+				case l, ok := <-lines:
+					return l, ok
+				case <-time.After(60 * time.Second):
+					return "", false
+				}
+			}
+			send := func(c string) bool {
+				for {
+					select {
+					case in <- c:
+						return true
+					case _, ok := <-lines: // board print-outs and the like
+						if !ok {
+							return false
+						}
+					case <-time.After(60 * time.Second):
+						return false
+					}
+				}
+			}
+			var res []out.M
+			if !send(first) {
+				return nil, "driver does not take commands"
+			}
+			for _, st := range steps {
+				if !send(st.cmd) {
+					return nil, "driver does not take commands"
+				}
+				if st.nlegal == 0 {
+					continue
+				}
+				a := out.M{"final": "", "best": "", "lines": [][]string{}}
+				for {
+					l, ok := next()
+					if !ok {
+						return nil, "analysis does not complete"
+					}
+					if m := pvLine.FindStringSubmatch(l); m != nil {
+						a["final"] = "depth=" + m[1] + " score=" + m[2]
+					} else if strings.HasPrefix(l, "bestmove ") {
+						a["best"] = strings.TrimPrefix(l, "bestmove ")
+					} else if strings.HasPrefix(l, "Search, depth=") {
+						break
+					}
+				}
+				var sub [][]string
+				for k := 0; k < st.nlegal; k++ {
+					l, ok := next()
+					m := subLine.FindStringSubmatch(l)
+					if !ok || m == nil {
+						return nil, "breakdown incomplete: " + l
+					}
+					sub = append(sub, []string{m[1], m[2]})
+				}
+				a["lines"] = sub
+				res = append(res, a)
+			}
+			go func() {
+				for range lines {
+				}
+			}()
+			send("quit")
+			return res, ""
+		}
+		on, e1 := run("hash 1")
+		off, e2 := run("nohash")
+		if on == nil {
+			on = []out.M{}
+		}
+		if off == nil {
+			off = []out.M{}
+		}
+		var cmds []string
+		for _, st := range steps {
+			cmds = append(cmds, st.cmd)
+		}
+		w.Emit(out.M{"op": "consolett", "cmds": cmds, "on": on, "off": off, "trouble": e1 + e2})
+	}
+	w.Close()
 }
